@@ -88,6 +88,8 @@ func Sync(r PeekScanner) (off int64, err error) {
 			}
 			return off, err
 		}
+		// The skipped byte counts towards the offset as well.
+		off++
 	}
 }
 
